@@ -12,7 +12,8 @@ package main
 //	lclose <conn>              the scripted peer closes its socket (allowed on a connection the broker has closed)
 //	release                    handlers held in the OnSubscribe hook (SUBSCRIBE to lc/hold) go on
 //	lcev                       `ev=<hook events in order> subs=<subscriptions in the store>`; events: enter:<cid> exit:<cid>
-//	                           (the held handler), closed:<cid> (OnClosed), onstop
+//	                           (the held handler), closed:<cid> (OnClosed), onstop; a client id hc… makes the OnClosed hook wait
+//	                           for `release` too (closed:<cid> … cdone:<cid>): internalClose is then in progress for that long
 //	lstop release=1            Stop is called while a handler is held; once the broker is quiescent again the line notes
 //	                           whether Stop has already returned (`early=1`), then releases the handler
 //	lstop [burst=<conn>:<tok>+…]   Stop (3 s context); then census and plugin counters BEFORE the scripted peers are closed
@@ -109,7 +110,13 @@ func (p *lcPlugin) HookWrapper() server.HookWrapper {
 		},
 		OnClosedWrapper: func(pre server.OnClosed) server.OnClosed {
 			return func(ctx context.Context, client server.Client, err error) {
-				p.log("closed:" + client.ClientOptions().ClientID)
+				cid := client.ClientOptions().ClientID
+				p.log("closed:" + cid)
+				if strings.HasPrefix(cid, "hc") {
+					// the tear-down of this connection (internalClose: unregister, will, session end, `closed`) waits here
+					<-p.curGate()
+					p.log("cdone:" + cid)
+				}
 				pre(ctx, client, err)
 			}
 		},
